@@ -177,11 +177,10 @@ def tiff_predict(data, colors, columns, bits=8):
     assert bits == 8
     bpp = colors
     n = row_bytes(colors, columns, bits)
-    assert len(data) % n == 0
     out = bytearray()
     for r in range(0, len(data), n):
-        row = data[r : r + n]
-        out += bytes((row[i] - (row[i - bpp] if i >= bpp else 0)) & 0xFF for i in range(n))
+        row = data[r : r + n]  # (the last row may be incomplete)
+        out += bytes((row[i] - (row[i - bpp] if i >= bpp else 0)) & 0xFF for i in range(len(row)))
     return bytes(out)
 
 
